@@ -268,6 +268,13 @@ void COTPdoTmrEvent (void *parg)
     CO_TPDO *pdo;
 
     pdo = (CO_TPDO *)parg;
+    if ((pdo->Flags & CO_TPDO_FLG_SKIP) != 0) {
+        /* the TPDO is already transmitted (and the event timer is
+         * restarted) within this timer processing cycle
+         */
+        pdo->Flags &= ~CO_TPDO_FLG_SKIP;
+        return;
+    }
     pdo->EvTmr = -1;
     COTPdoTx(pdo);
 }
@@ -306,7 +313,13 @@ void COTPdoTx(CO_TPDO *pdo)
     }
     tmr = &pdo->Node->Tmr;
     if (pdo->EvTmr >= 0) {
-        (void)COTmrDelete(tmr, pdo->EvTmr);
+        if (COTmrDelete(tmr, pdo->EvTmr) < 0) {
+            /* the event timer is elapsed and its callback is called
+             * within the running timer processing cycle (e.g. inhibit
+             * and event time end with the same tick): ignore it
+             */
+            pdo->Flags |= CO_TPDO_FLG_SKIP;
+        }
         pdo->EvTmr = -1;
     }
     if (pdo->Inhibit > 0) {
